@@ -20,6 +20,10 @@ def parseSetOp (s : String) : Option SetOp :=
   | ["emp", i] => i.toNat?.map .empty
   | ["unv", i] => i.toNat?.map .universe
   | ["has", i, e] => do pure (.contains (← i.toNat?) (← e.toNat?))
+  | ["new"] => some .newSet
+  | ["fe", e] => e.toNat?.map .fromElement
+  | ["cl", i] => i.toNat?.map .clone
+  | ["eq", i, j] => do pure (.equal (← i.toNat?) (← j.toNat?))
   | _ => none
 
 /-- membership of `e` read through the diagram -/
@@ -37,6 +41,10 @@ def refStep (bits : Nat) (r : List Nat) : SetOp → List Nat × Option Bool
   | .empty i => (r.set i 0, none)
   | .universe i => (r.set i (2 ^ (2 ^ bits) - 1), none)
   | .contains i e => (r, some ((r.getD i 0).testBit (e % 2 ^ bits)))
+  | .newSet => (r ++ [0], none)
+  | .fromElement e => (r ++ [1 <<< (e % 2 ^ bits)], none)
+  | .clone i => (r ++ [r.getD i 0], none)
+  | .equal i j => (r, some (r.getD i 0 == r.getD j 0))
 
 /-- `seq|bits|nsets|op;op;…|obs;obs;…` with obs = `mask,mask[,ans]` or `PANIC` -/
 def handleC19 (fields : List String) : Verdict :=
@@ -61,8 +69,8 @@ def handleC19 (fields : List String) : Verdict :=
             let (ref', rans) := refStep bits ref op
             ref := ref'
             let parts := (ob.splitOn ",")
-            let masks := (parts.take nsets).filterMap (·.toNat?)
-            let realAns := (parts.drop nsets).head?
+            let masks := (parts.take st.sets.length).filterMap (·.toNat?)
+            let realAns := (parts.drop st.sets.length).head?
             let mMasks := st.sets.map (maskOf bits)
             -- oracle: the implementation's sets against the reference sets
             if masks != ref then
@@ -72,7 +80,7 @@ def handleC19 (fields : List String) : Verdict :=
             | some ra, some a =>
               if (a == "1") != ra then
                 return { modelOk := ans == some (a == "1"), modelOut := toString (repr ans),
-                         oracle := some s!"step {idx} ({repr op}): contains answered {a} but the reference set says {ra}" }
+                         oracle := some s!"step {idx} ({repr op}): the query answered {a} but the reference sets say {ra}" }
             | _, _ => pure ()
             if masks != mMasks then
               return { modelOk := false, modelOut := toString mMasks }
